@@ -98,6 +98,9 @@ func cmdUnit(args []string) int {
 				fmt.Println("  kept auto invariants:", res.KeptAuto)
 				fmt.Println("  dropped auto invariants:", len(res.DroppedAuto))
 			}
+			for _, n := range res.UnreachableReturns {
+				fmt.Println("  UNREACHABLE return point (vacuous postconditions):", n)
+			}
 			for _, n := range res.Unsupported {
 				fmt.Println("  UNSUPPORTED:", n)
 			}
